@@ -496,12 +496,15 @@ theorem goDecode_wt (ss : Schemas) (hs : schemasOk ss = true) :
     case array e m =>
       simp only [posOk] at hp
       simp only [classify]
-      cases j <;> simp only [goDecode] at h
-      case null => cases h; rfl
-      case arr xs =>
-        obtain ⟨l, hl, rfl⟩ := DRes.map_ok h
-        exact mapRes_allList (fun x y hxy => ih e x y hp hxy) xs l hl
-      all_goals cases h
+      cases hbe : isByteElem e
+      · cases j <;> simp only [goDecode, hbe, Bool.false_eq_true, if_false] at h
+        case null => cases h; rfl
+        case arr xs =>
+          obtain ⟨l, hl, rfl⟩ := DRes.map_ok h
+          exact mapRes_allList (fun x y hxy => ih e x y hp hxy) xs l hl
+        all_goals cases h
+      · simp only [goDecode, hbe, if_true] at h
+        cases h
     case map idx val m =>
       simp only [posOk, Bool.and_eq_true] at hp
       rw [isStringIdx_classify hp.1]
